@@ -149,6 +149,17 @@ class Collector(abc.ABC):
         """
         pass
 
+    def hold(self, value):
+        """
+        Keep a value alive for as long as its identity is cached.
+
+        The cache is keyed by the identity of the values: a value that is released while its identity is still cached
+        (a local the program drops while a deferred snapshot is pending) gives its identity to the next object.
+
+        :param value: the value whose identity was entered into the cache
+        """
+        pass
+
     @abc.abstractmethod
     def append_variable(self, var_id: str, variable: Variable):
         """
@@ -278,6 +289,7 @@ def process_variable(var_collector: Collector, node: NodeValue) -> VariableRespo
 
     # if we do not have a cache_id - then create one
     var_id = var_collector.new_var_id(identity_hash_id)
+    var_collector.hold(node.value)
 
     # crete the variable id to use
     variable_id = VariableId(var_id, node.name, modifiers, node.original_name)
